@@ -64,3 +64,14 @@ Definition op_plain (g : gx) (cwd : str) (op : opcall) : option str :=
 
 (** the key covers a step: it contains the flag, or the object is constrained *)
 Definition op_covered (wf : bool) (op : opcall) : bool := wf || oc_con op.
+
+(** A step made through a FileSystemChain: the chain computes the member's argument from its prefix and its own
+    argument ([cc_arg], generated from filesys.py), the member runs one of its sites on it.  It is an ordinary step
+    whose argument string is that value ([None]: computing the argument raised). *)
+Definition chain_step (g : gx) (cwd root_arg : str) (con : bool) (c : ccall) (s : site) (i : inp) : option opcall :=
+  match peval g con cwd root_arg i (cc_arg c) with
+  | Some a => Some {| oc_root := root_arg; oc_con := con; oc_site := s;
+                      oc_in := {| i_arg := a; i_data := i_data i; i_hpath := i_hpath i; i_prefix := i_prefix i;
+                                  i_walked := i_walked i |} |}
+  | None => None
+  end.
